@@ -28,11 +28,11 @@ def _conds(tier):
         c(2, "", timeout=1800)
         for x, y in itertools.product("01234567", repeat=2):
             c(3, x + y, timeout=1800)
-        for x, y in itertools.product("01234567", repeat=2):
+        for x, y in itertools.product("1245", "01234567"):
             c(4, "0" + x + y, timeout=2400)
         for x in "1245":
             c(2, "0" + x, inner=1, timeout=1800)
-        for x, y in itertools.product("1245", "01234567"):
+        for x, y in itertools.product("12", "1267"):
             c(3, "0" + x + y, inner=1, timeout=2400)
     return conds
 
@@ -48,7 +48,7 @@ def run(ctx):
     ctx.bounds = {
         "commands": "alphabet {initialize, start, step, stop, run_up_to(a), run_up_to_including(a), end_replication, "
                     "cleanup}; quick: every sequence of length 2, every sequence of length 3 that starts with initialize; "
-                    "thorough: every sequence of length 3 and every sequence initialize+3; arguments 0..6 and the warm-up "
+                    "thorough: every sequence of length 3 and every sequence initialize + (start|step|bounded run) + 2 more; arguments 0..6 and the warm-up "
                     "time 0..5 symbolic",
         "handler-issued": "initialize followed by start/step/run_up_to(_including) during which the handler of the first "
                           "event issues one symbolic command (all kinds except cleanup)",
